@@ -264,7 +264,8 @@ Fixpoint assoc_update {A} (k : str) (f : A -> A) (l : list (str * A)) : list (st
   end.
 
 Definition set_date_rule (cfg : config F) (lang : str) (pats : list str) : res (config F) :=
-  do ps <- tokenise_patterns cfg lang pats;
+  do ps0 <- tokenise_patterns cfg lang pats;
+  let ps := filter (fun p : list (token_info F) => match p with [] => false | _ => true end) ps0 in   (* empty patterns are ignored *)
   Ok (set_rules cfg (assoc_update lang (fun rules => filter (fun r => negb (is_small_date r)) rules
                                                             ++ [RInternal (s "small_date") ps]) (cf_rules cfg))).
 
